@@ -34,6 +34,9 @@ def admissible_base(R, v, ty):
     spec["mf"] = False
     spec["frag"] = 0
     spec["win"] = R.choice([0, 1, 8192, 65535, R.randrange(65536)])
+    if R.random() < 0.1:
+        # ports are hints like any other header value: 0 and 65535 included
+        spec["sport"], spec["dport"] = R.choice([(0, 80), (40000, 0), (0, 0), (65535, 65535), (1, 65535)])
     # option hints
     r = R.random()
     opts = ""
